@@ -17,7 +17,10 @@ type c07Case struct {
 	Kind string     `json:"kind"` // "expr" or "cmp"
 	Op   string     `json:"op,omitempty"`
 	E    *ref.JTerm `json:"e,omitempty"` // expression (expr) ...
-	L    *ref.JTerm `json:"l,omitempty"` // ... or the two sides (cmp)
+	// Shared: a sub-expression that the goal binds to a variable first ('D = Shared, X is E'); the atom
+	// '$d' in E, L, R marks its occurrences (one compound object reached several times in one evaluation)
+	Shared *ref.JTerm `json:"shared,omitempty"`
+	L      *ref.JTerm `json:"l,omitempty"` // ... or the two sides (cmp)
 	R    *ref.JTerm `json:"r,omitempty"`
 	Goal string     `json:"goal"`
 }
@@ -81,30 +84,59 @@ func numKind(t ref.Term) string {
 	return "?"
 }
 
-func c07Shape(t ref.Term) string {
+func c07Shape(t ref.Term) string { return c07ShapeD(t, 0) }
+
+func c07ShapeD(t ref.Term, depth int) string {
 	switch t := t.(type) {
 	case ref.Int:
 		return "I"
 	case ref.Flt:
 		return "F"
 	case *ref.Cmp:
+		if depth >= 3 {
+			return "deep"
+		}
 		parts := make([]string, len(t.Args))
 		for i, a := range t.Args {
-			parts[i] = c07Shape(a)
+			parts[i] = c07ShapeD(a, depth+1)
 		}
 		return t.F + "(" + strings.Join(parts, ",") + ")"
 	}
 	return "?"
 }
 
+func c07Subst(t ref.Term, by ref.Term) ref.Term {
+	switch x := t.(type) {
+	case ref.Atom:
+		if x == "$d" {
+			return by
+		}
+	case *ref.Cmp:
+		args := make([]ref.Term, len(x.Args))
+		for i, a := range x.Args {
+			args[i] = c07Subst(a, by)
+		}
+		return &ref.Cmp{F: x.F, Args: args}
+	}
+	return t
+}
+
 func c07Goal(c *c07Case) (goal string, e, l, r ref.Term) {
 	vars := map[string]*ref.Var{}
-	if c.Kind == "cmp" {
-		l, r = ref.Dec(c.L, vars), ref.Dec(c.R, vars)
-		return ref.Text(ref.C(c.Op, l, r)), nil, l, r
+	pre := ""
+	inline := func(t ref.Term) (forGoal, forRef ref.Term) { return t, t }
+	if c.Shared != nil {
+		sh := ref.Dec(c.Shared, vars)
+		pre = "D = (" + ref.Text(sh) + "), "
+		inline = func(t ref.Term) (ref.Term, ref.Term) { return c07Subst(t, ref.NewVar("D")), c07Subst(t, sh) }
 	}
-	e = ref.Dec(c.E, vars)
-	return "X is " + ref.Text(e), e, nil, nil
+	if c.Kind == "cmp" {
+		lg, lr := inline(ref.Dec(c.L, vars))
+		rg, rr := inline(ref.Dec(c.R, vars))
+		return pre + ref.Text(ref.C(c.Op, lg, rg)), nil, lr, rr
+	}
+	eg, er := inline(ref.Dec(c.E, vars))
+	return pre + "X is " + ref.Text(eg), er, nil, nil
 }
 
 func errKind(ball ref.Term) string {
@@ -328,6 +360,32 @@ func c07Work(w *h.W) {
 			}
 		}
 	}
+	// depth sweep with SHARED sub-expressions: one compound bound to a variable occurs at the bottom of a
+	// chain of every depth 0..N (and again at the top), left- and right-nested, under is/2 and a comparison
+	d := ref.Atom("$d")
+	shareds := []ref.Term{ref.C("-", ref.Int(3), ref.Int(1)), ref.C("max", ref.Int(2), ref.Flt(2.5)), ref.C("-", ref.Int(math.MaxInt64))}
+	maxDepth := w.Pick(70, 300)
+	for si, sh := range shareds {
+		for n := 0; n <= maxDepth; n++ {
+			if !w.Mine() {
+				continue
+			}
+			if w.Expired() {
+				return
+			}
+			var left, right ref.Term = ref.C("*", d, ref.Int(1)), ref.C("+", d, d)
+			for i := 0; i < n; i++ {
+				left = ref.C("+", left, ref.Int(1))
+				right = ref.C("-", ref.Int(1), right)
+			}
+			for _, e := range []ref.Term{left, right, ref.C("-", left, d), ref.C("+", d, right), ref.C("-", ref.C("+", left, right), ref.C("abs", d))} {
+				run(&c07Case{Kind: "expr", E: ref.Enc(e), Shared: ref.Enc(sh)}, n+si)
+			}
+			run(&c07Case{Kind: "cmp", Op: "=:=", L: ref.Enc(left), R: ref.Enc(ref.C("-", left, ref.C("-", d, d))), Shared: ref.Enc(sh)}, n+si)
+			// control: the same depth without sharing
+			run(&c07Case{Kind: "expr", E: ref.Enc(c07Subst(left, sh))}, n+si)
+		}
+	}
 	// comparisons
 	for _, op := range c07Cmp {
 		for _, x := range nums {
@@ -410,7 +468,7 @@ func c07Replay(b []byte) (string, string, bool) {
 func init() {
 	h.Register(&h.Check{
 		ID: "C07",
-		Rule: "complete boundary grid: every unary and binary evaluable functor of the statement over all (pairs of) values of an integer grid dense around 0, 2^31, 2^32, sqrt(2^63), 2^53, 2^62, 2^63 and a float grid of all magnitudes/signs, in all four int/float combinations; all shift counts 0..63; the six comparison predicates over the same pairs; all depth-2 expression trees over a reduced grid. A case is non-trivial when the reference defines its outcome (value set or error kind); distinct = distinct goal text.",
+		Rule: "complete boundary grid: every unary and binary evaluable functor of the statement over all (pairs of) values of an integer grid dense around 0, 2^31, 2^32, sqrt(2^63), 2^53, 2^62, 2^63 and a float grid of all magnitudes/signs, in all four int/float combinations; all shift counts 0..63; the six comparison predicates over the same pairs; all depth-2 expression trees over a reduced grid; a depth sweep 0..70 (300) of left- and right-nested chains whose bottom (and top) is ONE compound bound to a variable beforehand (a shared sub-expression), next to the same chains without sharing. A case is non-trivial when the reference defines its outcome (value set or error kind); distinct = distinct goal text.",
 		Explanation: "state = one expression (or comparison) over the grid; transition = one evaluation of it by the real interpreter (X is E / E1 op E2 through Query) compared with the math/big + IEEE-754 reference; every case is a one-step trace validated against the implementation",
 		Assumptions: []string{
 			"reference: integers with math/big and ISO 9.1/9.3/9.4 definitions (// truncating, div flooring, mod sign of divisor, rem sign of dividend); floats: Go float64 arithmetic is IEEE-754 binary64",
